@@ -1,6 +1,7 @@
 //! Byte encoders written from the format descriptions (never by calling Physis writers).
 pub mod deflate;
 pub mod excel;
+pub mod havok;
 pub mod material;
 pub mod mdl;
 pub mod sqpack;
